@@ -4,6 +4,7 @@ import (
 	"crypto/sha256"
 	"encoding/hex"
 	"fmt"
+	"os"
 	"strings"
 	"testing"
 
@@ -67,6 +68,9 @@ func short(b []byte) string {
 }
 
 func TestC26(t *testing.T) {
+	if os.Getenv("C26_PROC_SCRIPT") != "" {
+		procChild()
+	}
 	run := evid.Start("C26", "exploration")
 	acc := enum.NewAcc(run, "7 signals (request-offer 0 and 7, SDP offer, SDP answer, ICE candidate, ICE with empty candidate, empty signal) x 3 keys encoded with EncodeWebRtcSignal and decoded with every key; every payload opened with DecryptWithPrivKey (right key) under each non-WebRTC context of the menu; every single-bit flip, truncation and 1-byte extension of the payloads (quick: key 0, thorough: all keys) decoded with the right key; raw byte strings of every length 0..64 over 8 fills decoded with every key; isOfferer on all ordered pairs of the ID menu. Non-trivial = every case except decoding an unmodified payload with its own key and the (a,a) pairs; distinct by (group, description)")
 	keys := enum.Keys(3)
@@ -344,6 +348,7 @@ func TestC26(t *testing.T) {
 	acc.Sample(map[string]any{"group": "offerer", "a": uids[len(uids)-6], "b": uids[len(uids)-5]})
 
 	run.Cov["link_acceptance"] = linkAcceptance(run, acc)
+	runProcessHistories(run, acc)
 	acc.Finish()
 	run.Cov["panics_not_judged"] = panics
 	run.Cov["panics_note"] = "decoder panics on undecodable payloads are counted, not judged, by this property (its text is about what can be decoded); the no-panic clause on arbitrary ciphertext bytes is C12's"
